@@ -687,49 +687,76 @@ fn walk(e: &Expr, f: &mut dyn FnMut(&Expr)) {
 fn is_bitop(op: &Operator) -> bool {
     matches!(op, Operator::BitwiseAnd | Operator::BitwiseOr | Operator::BitwiseXor)
 }
-/// stable key of the known defect class the ORIGINAL expression can trigger ("" = none)
-fn defect_key(e: &Expr, df: &DFSchema) -> String {
-    let mut inlist_null = 0;
-    let mut inlists = 0;
+/// the probe expression of an "IN-list-like" atom (x IN (..), x = literal, literal = x)
+fn inlist_probe(n: &Expr) -> Option<Expr> {
+    match n {
+        Expr::InList(il) => Some(il.expr.as_ref().clone()),
+        Expr::BinaryExpr(BinaryExpr { left, op: Operator::Eq, right }) => match (left.as_ref(), right.as_ref()) {
+            (x, Expr::Literal(..)) if !matches!(x, Expr::Literal(..)) => Some(x.clone()),
+            (Expr::Literal(..), x) if !matches!(x, Expr::Literal(..)) => Some(x.clone()),
+            _ => None,
+        },
+        _ => None,
+    }
+}
+/// stable key of the known defect class the ORIGINAL expression can trigger and the failing row is consistent with
+/// ("" = none).  v0 / v1 = value of the original / simplified expression on the failing row (None = error).
+fn defect_key(e: &Expr, df: &DFSchema, guar: &[(usize, Guar)], v0: &V, v1: Option<&V>) -> String {
+    let mut probes: Vec<Expr> = vec![];
+    let mut inlist_pair = false;
+    let mut empty_inlist = false;
     let mut neg_bit = false;
     let mut trycast_narrow = false;
-    walk(e, &mut |n| match n {
-        Expr::InList(il) => {
-            inlists += 1;
-            if has_null_lit(&il.list) {
-                inlist_null += 1;
+    walk(e, &mut |n| {
+        if let Some(p) = inlist_probe(n) {
+            if probes.contains(&p) {
+                inlist_pair = true;
             }
+            probes.push(p);
         }
-        Expr::BinaryExpr(BinaryExpr { left, op, right }) if is_bitop(op) => {
-            if matches!(left.as_ref(), Expr::Negative(_)) || matches!(right.as_ref(), Expr::Negative(_)) {
-                neg_bit = true;
-            }
-        }
-        Expr::Negative(inner) => {
-            if let Expr::BinaryExpr(BinaryExpr { op, .. }) = inner.as_ref() {
-                if matches!(op, Operator::BitwiseAnd | Operator::BitwiseOr) {
+        match n {
+            Expr::InList(il) if il.list.is_empty() => empty_inlist = true,
+            Expr::BinaryExpr(BinaryExpr { left, op, right }) if is_bitop(op) => {
+                if matches!(left.as_ref(), Expr::Negative(_)) || matches!(right.as_ref(), Expr::Negative(_)) {
                     neg_bit = true;
                 }
             }
-        }
-        Expr::TryCast(TryCast { expr, field }) => {
-            if let (Some(from), Some(to)) = (expr.get_type(df).ok().and_then(|t| int_dt_range(&t)), int_dt_range(field.data_type())) {
-                if !(to.0 <= from.0 && from.1 <= to.1) {
-                    trycast_narrow = true;
+            Expr::Negative(inner) => {
+                if let Expr::BinaryExpr(BinaryExpr { op, .. }) = inner.as_ref() {
+                    if matches!(op, Operator::BitwiseAnd | Operator::BitwiseOr) {
+                        neg_bit = true;
+                    }
                 }
             }
+            Expr::TryCast(TryCast { expr, field }) => {
+                if let (Some(from), Some(to)) = (expr.get_type(df).ok().and_then(|t| int_dt_range(&t)), int_dt_range(field.data_type())) {
+                    if !(to.0 <= from.0 && from.1 <= to.1) {
+                        trycast_narrow = true;
+                    }
+                }
+            }
+            _ => {}
         }
-        _ => {}
     });
+    let orig_null = *v0 == V::Null;
+    let simp_null = v1 == Some(&V::Null);
     let mut ks = vec![];
-    if inlist_null >= 1 && inlists >= 2 {
-        ks.push("inlist-merge-with-null");
+    // the three-valued-logic defects only ever turn a NULL result into TRUE / FALSE
+    if inlist_pair && orig_null {
+        ks.push("inlist-merge-ignores-null");
+    }
+    if trycast_narrow && orig_null {
+        ks.push("unwrap-narrowing-try_cast");
+    }
+    if empty_inlist && (orig_null != simp_null) {
+        ks.push("empty-inlist-null-probe");
     }
     if neg_bit {
         ks.push("negative-as-bitwise-not");
     }
-    if trycast_narrow {
-        ks.push("unwrap-narrowing-try_cast");
+    // a MaybeNull guarantee with a point interval is treated as the constant
+    if orig_null && guar.iter().any(|(_, g)| matches!(g, Guar::MaybeNull(lo, hi) if lo == hi)) {
+        ks.push("guarantee-maybenull-point-as-constant");
     }
     ks.join("+")
 }
@@ -1033,19 +1060,21 @@ fn run_case(cx: &Ctx, c: &Case1, rng: &mut Rng) -> String {
     let (dt0, r0) = eval_rows(&p0, &batch);
     let (dt1, r1) = eval_rows(&p1, &batch);
     let n_ok = r0.iter().filter(|x| x.is_ok()).count();
+    // the failing row: prefer one on which the original has a non-NULL value
     let mut bad: Option<(usize, String)> = None;
     for i in 0..rows.len() {
         if let Ok(v0) = &r0[i] {
-            match &r1[i] {
-                Ok(v1) if v1 == v0 => {}
-                Ok(v1) => {
-                    bad = Some((i, format!("original = {}, simplified = {}", v0.json(), v1.json())));
-                    break;
-                }
-                Err(er) => {
-                    bad = Some((i, format!("original = {}, simplified fails: {}", v0.json(), short(er))));
-                    break;
-                }
+            let why = match &r1[i] {
+                Ok(v1) if v1 == v0 => continue,
+                Ok(v1) => format!("original = {}, simplified = {}", v0.json(), v1.json()),
+                Err(er) => format!("original = {}, simplified fails: {}", v0.json(), short(er)),
+            };
+            let first = bad.is_none();
+            if first || (*v0 != V::Null && matches!(&bad, Some((j, _)) if r0[*j] == Ok(V::Null))) {
+                bad = Some((i, why));
+            }
+            if *v0 != V::Null {
+                break;
             }
         }
     }
@@ -1073,8 +1102,9 @@ fn run_case(cx: &Ctx, c: &Case1, rng: &mut Rng) -> String {
             }
         }
     }
-    let dkey = defect_key(e, cx.df.as_ref());
     if let Some((i, why)) = bad {
+        let v0 = r0[i].clone().unwrap_or(V::Null);
+        let dkey = defect_key(e, cx.df.as_ref(), &c.guar, &v0, r1[i].as_ref().ok());
         let key = if dkey.is_empty() { format!("unclassified:{}", c.stream) } else { dkey };
         o.push_str(&format!(",\"ok\":false,\"row\":[{}],\"why\":{},\"key\":{}}}", rows[i].iter().map(|v| v.json()).collect::<Vec<_>>().join(","), json_str(&why), json_str(&key)));
     } else if type_bad {
@@ -1085,21 +1115,27 @@ fn run_case(cx: &Ctx, c: &Case1, rng: &mut Rng) -> String {
     o
 }
 
-fn witnesses() -> Vec<(&'static str, Expr)> {
+fn witnesses() -> Vec<(&'static str, Expr, Vec<(usize, Guar)>)> {
     use Operator::*;
     let i32l = |v: i128| int_lit(Ty::I32, Some(v));
     vec![
         // a32 IN (1, NULL) AND a32 IN (2): on a32 = 2 the value is NULL, the simplifier folds it to false
-        ("witness:inlist-merge-with-null:intersection", bin(in_list(col("a32"), vec![i32l(1), null_lit(Ty::I32)], false), And, in_list(col("a32"), vec![i32l(2)], false))),
+        ("witness:inlist-merge-ignores-null:intersection-null-item", bin(in_list(col("a32"), vec![i32l(1), null_lit(Ty::I32)], false), And, in_list(col("a32"), vec![i32l(2)], false)), vec![]),
+        // a32 IN (1) AND a32 IN (2): NULL on a32 = NULL, folded to false
+        ("witness:inlist-merge-ignores-null:intersection-null-probe", bin(in_list(col("a32"), vec![i32l(1), i32l(3)], false), And, in_list(col("a32"), vec![i32l(2), i32l(4)], false)), vec![]),
         // a32 IN (1, 2) AND a32 NOT IN (1, NULL): on a32 = 2 the value is NULL, the simplifier produces a32 = 2 (TRUE)
-        ("witness:inlist-merge-with-null:except", bin(in_list(col("a32"), vec![i32l(1), i32l(2)], false), And, in_list(col("a32"), vec![i32l(1), null_lit(Ty::I32)], true))),
+        ("witness:inlist-merge-ignores-null:except-null-item", bin(in_list(col("a32"), vec![i32l(1), i32l(2)], false), And, in_list(col("a32"), vec![i32l(1), null_lit(Ty::I32)], true)), vec![]),
         // (-b32) & b32 is rewritten to 0 as if unary minus were bitwise NOT
-        ("witness:negative-as-bitwise-not:and", bin(Expr::Negative(bx(col("b32"))), BitwiseAnd, col("b32"))),
-        ("witness:negative-as-bitwise-not:or", bin(col("b32"), BitwiseOr, Expr::Negative(bx(col("b32"))))),
-        ("witness:negative-as-bitwise-not:xor", bin(Expr::Negative(bx(col("b32"))), BitwiseXor, col("b32"))),
-        ("witness:negative-as-bitwise-not:demorgan", Expr::Negative(bx(bin(col("b32"), BitwiseAnd, col("a32"))))),
+        ("witness:negative-as-bitwise-not:and", bin(Expr::Negative(bx(col("b32"))), BitwiseAnd, col("b32")), vec![]),
+        ("witness:negative-as-bitwise-not:or", bin(col("b32"), BitwiseOr, Expr::Negative(bx(col("b32")))), vec![]),
+        ("witness:negative-as-bitwise-not:xor", bin(Expr::Negative(bx(col("b32"))), BitwiseXor, col("b32")), vec![]),
+        ("witness:negative-as-bitwise-not:demorgan", Expr::Negative(bx(bin(col("b32"), BitwiseAnd, col("a32")))), vec![]),
         // try_cast(a64 AS INT) <> 1 is NULL when a64 does not fit, the unwrapped a64 <> 1 is TRUE
-        ("witness:unwrap-narrowing-try_cast", bin(try_cast(col("a64"), DataType::Int32), NotEq, i32l(1))),
+        ("witness:unwrap-narrowing-try_cast", bin(try_cast(col("a64"), DataType::Int32), NotEq, i32l(1)), vec![]),
+        // NULL IN () : FALSE when the probe is an expression, NULL once the probe has been folded to a NULL literal
+        ("witness:empty-inlist-null-probe", in_list(nullif(null_lit(Ty::Str), str_lit("%")), vec![], false), vec![]),
+        // guarantee a8 IN {NULL, 1}: the column is replaced by the literal 1, also on the rows where it is NULL
+        ("witness:guarantee-maybenull-point-as-constant", Expr::Negative(bx(col("a8"))), vec![(0, Guar::MaybeNull(1, 1))]),
     ]
 }
 
@@ -1127,17 +1163,18 @@ fn main() {
         }
     }));
     let cx = ctx();
-    let mut rng = Rng::new(seed);
     // fixed witnesses first (ids -1, -2, ...), in all three modes where meaningful
     let mut wid = 0i64;
-    for (name, e) in witnesses() {
-        for mode in ["plain", "phys"] {
+    for (name, e, guar) in witnesses() {
+        let modes: &[&'static str] = if guar.is_empty() { &["plain", "phys"] } else { &["guar"] };
+        for mode in modes {
             wid -= 1;
             if only != -1000000 && only != wid {
                 continue;
             }
-            let c = Case1 { id: wid, stream: name.to_string(), mode, e: e.clone(), guar: vec![] };
-            println!("{}", run_case(&cx, &c, &mut rng));
+            let c = Case1 { id: wid, stream: name.to_string(), mode: *mode, e: e.clone(), guar: guar.clone() };
+            let mut rr = Rng::new(seed.wrapping_mul(7919).wrapping_add((wid + 1000) as u64));
+            println!("{}", guarded(wid, || run_case(&cx, &c, &mut rr)));
         }
     }
     for id in 0..n {
@@ -1211,7 +1248,8 @@ fn main() {
             return String::new();
         }
         let c = Case1 { id, stream, mode, e, guar };
-        run_case(&cx, &c, &mut rng)
+        let mut rr = Rng::new(seed.wrapping_mul(7919).wrapping_add(id as u64 + 1000));
+        run_case(&cx, &c, &mut rr)
       });
       if !line.is_empty() {
         println!("{line}");
